@@ -458,6 +458,16 @@ func runDisputeHistory(t *testing.T, seed int64) (string, map[string]int, string
 		ds := diffHoldings(before, w.holdings(), signer, roles)
 		steps = append(steps, coqStep(res, w.snap(), ds))
 		stats[fmt.Sprintf("%s/%d", res.name, res.result)]++
+		if os.Getenv("HIST_DISPUTES") != "" && (res.result != 1 || name == "ProposeDispute") {
+			fmt.Printf("h=%d t=%s %s signer=%d result=%d %s params %v | dispute account %s\n", w.height, w.now.Format("01-02 15:04:05"), name, signer, res.result, res.errMsg, res.params, w.snap().dispute)
+			for _, id := range w.allDisputeIDs(6) {
+				if d, err := w.s.Disputekeeper.Disputes.Get(w.ctx, id); err == nil {
+					v, _ := w.s.Disputekeeper.Votes.Get(w.ctx, id)
+					fmt.Printf("    dispute %d status %v cat %v slash %s fee %s feeTotal %s burn %s reward %s open %v pending %v round %d power %d result %v executed %v\n", id, d.DisputeStatus, d.DisputeCategory,
+						d.SlashAmount, d.DisputeFee, d.FeeTotal, d.BurnAmount, d.VoterReward, d.Open, d.PendingExecution, d.DisputeRound, d.InitialEvidence.Power, v.VoteResult, v.Executed)
+				}
+			}
+		}
 		return res
 	}
 	block := func(gap time.Duration, f func()) {
@@ -474,11 +484,23 @@ func runDisputeHistory(t *testing.T, seed int64) (string, map[string]int, string
 		steps = append(steps, coqStep(res, w.snap(), nil))
 		stats[fmt.Sprintf("%s/%d", res.name, res.result)]++
 	}
+	// sub-scenario (one history in six): the validator that holds all of the disputed reporter's stake leaves the
+	// bonded set after the report, finishes unbonding, loses every delegation to a major dispute (and is removed from
+	// the staking store) before the dispute is executed and the stake returned
+	valGone := r.Intn(6) == 0
 	// selectors of reporter 0 with fractional stakes (set-up, before the recorded history)
 	for k := 0; k < 3; k++ {
 		a := nVals + k
 		amt := pick(r, bi(2_000_800), bi(1_998_400), bi(333_333), bi(1_000_001), bi(5*loyaPerTRB), bi(2_500_000), bi(int64(1_000_000+r.Intn(3_000_000))))
 		v := pick(r, 0, 0, 1, 2)
+		if valGone {
+			v = 0
+			amt = bi(int64(1+r.Intn(5)) * loyaPerTRB) // whole units: a 100 % slash then leaves the validator without shares
+			if _, err := w.stakingMS.Delegate(w.ctx, &stakingtypes.MsgDelegate{DelegatorAddress: w.accts[a].String(), ValidatorAddress: w.valOps[v].String(), Amount: w.coin(amt)}); err == nil {
+				_, _ = w.reporterMS.SelectReporter(w.ctx, &reportertypes.MsgSelectReporter{SelectorAddress: w.accts[a].String(), ReporterAddress: w.accts[0].String()})
+			}
+			continue
+		}
 		_, _ = w.stakingMS.Delegate(w.ctx, &stakingtypes.MsgDelegate{DelegatorAddress: w.accts[a].String(), ValidatorAddress: w.valOps[v].String(), Amount: w.coin(amt)})
 		if r.Intn(3) == 0 {
 			amt2 := pick(r, bi(1_000_003), bi(777_777), bi(2*loyaPerTRB))
@@ -486,6 +508,15 @@ func runDisputeHistory(t *testing.T, seed int64) (string, map[string]int, string
 		}
 		if r.Intn(4) != 0 {
 			_, _ = w.reporterMS.SelectReporter(w.ctx, &reportertypes.MsgSelectReporter{SelectorAddress: w.accts[a].String(), ReporterAddress: w.accts[0].String()})
+		}
+	}
+	if valGone {
+		// the reporter's own delegation is rounded up to whole units as well
+		if v, err := w.s.Stakingkeeper.GetValidator(w.ctx, w.valOps[0]); err == nil {
+			rem := new(big.Int).Mod(v.Tokens.BigInt(), bi(loyaPerTRB))
+			if rem.Sign() > 0 {
+				_, _ = w.stakingMS.Delegate(w.ctx, &stakingtypes.MsgDelegate{DelegatorAddress: w.accts[0].String(), ValidatorAddress: w.valOps[0].String(), Amount: w.coin(bsub(bi(loyaPerTRB), rem))})
+			}
 		}
 	}
 	// a selector of reporter 1 at another validator: a fee paid from reporter 1's stake then has two origins
@@ -513,7 +544,7 @@ func runDisputeHistory(t *testing.T, seed int64) (string, map[string]int, string
 	}
 	// in a third of the histories a validator was slashed earlier: its share price is not 1, so token amounts do not
 	// round-trip through shares
-	if r.Intn(3) == 0 {
+	if r.Intn(3) == 0 && !valGone {
 		vi := r.Intn(nVals)
 		if v, err := w.s.Stakingkeeper.GetValidator(w.ctx, w.valOps[vi]); err == nil {
 			if cons, err := v.GetConsAddr(); err == nil {
@@ -576,7 +607,14 @@ func runDisputeHistory(t *testing.T, seed int64) (string, map[string]int, string
 	// backers of reporter 0 undelegate in two different blocks (two unbonding entries); sometimes their validator is
 	// then slashed for an infraction before those entries (entry balance < initial balance)
 	slashed := false
-	if r.Intn(2) == 0 {
+	if valGone {
+		block(time.Second, func() { jailVal(0) })
+		block(21*24*time.Hour+time.Duration(1+r.Intn(3600))*time.Second, nil)
+		if v, err := w.s.Stakingkeeper.GetValidator(w.ctx, w.valOps[0]); err == nil {
+			stats["valGone: validator status "+v.Status.String()]++
+		}
+	}
+	if r.Intn(2) == 0 && !valGone {
 		slashIt := r.Intn(3) != 0
 		smallThenAll := r.Intn(2) == 0
 		infraction := w.height
@@ -658,6 +696,16 @@ func runDisputeHistory(t *testing.T, seed int64) (string, map[string]int, string
 		choice = pick(r, disputetypes.VoteEnum_VOTE_INVALID, disputetypes.VoteEnum_VOTE_SUPPORT)
 		first = full
 	}
+	if valGone {
+		cat = disputetypes.Major
+		full = bmul(new(big.Int).SetUint64(rep.Power), bi(loyaPerTRB))
+		first = full
+		rounds = 1
+		choice = pick(r, disputetypes.VoteEnum_VOTE_INVALID, disputetypes.VoteEnum_VOTE_AGAINST)
+		if proposer == 1 && fromBond {
+			fromBond = false
+		}
+	}
 	var id uint64
 	propose := func(fee *big.Int, bond bool) {
 		roles := w.backersOf(rep)
@@ -730,6 +778,17 @@ func runDisputeHistory(t *testing.T, seed int64) (string, map[string]int, string
 			}
 		})
 		// the vote period (2 days) ends: tally; the next round must come before the 3-day end of the dispute
+		if valGone {
+			if v, err := w.s.Stakingkeeper.GetValidator(w.ctx, w.valOps[0]); err != nil {
+				stats["valGone: validator removed before execution"]++
+			} else if os.Getenv("HIST_DISPUTES") != "" {
+				fmt.Println("valGone: validator 0 still has tokens", v.Tokens, "shares", v.DelegatorShares, "reported power", rep.Power)
+				dels, _ := w.s.Stakingkeeper.GetValidatorDelegations(w.ctx, w.valOps[0])
+				for _, d := range dels {
+					fmt.Println("   delegation", d.DelegatorAddress, d.Shares)
+				}
+			}
+		}
 		block(48*time.Hour+time.Duration(r.Intn(3))*time.Second, nil)
 		if round < rounds {
 			if tipAgain {
@@ -786,6 +845,13 @@ func (w *World) allDisputeIDs(max uint64) []uint64 {
 		ids = append(ids, i)
 	}
 	return ids
+}
+
+func TestHistDisputesDebug(t *testing.T) {
+	var hs int64
+	fmt.Sscan(os.Getenv("HIST_SEED"), &hs)
+	_, stats, halted := runDisputeHistory(t, hs)
+	fmt.Println(stats, "HALTED:", halted)
 }
 
 func TestHistDisputes(t *testing.T) {
